@@ -1005,6 +1005,70 @@ func c19(args []string) int {
 			fileCase(true, cl.Name)
 		}
 	}
+	// (b3) the directory of a path-mode container after the real marshaler ran on it: stale files (json and not), items
+	// in order (incl. pairs mapped to one file), against the model's path_write / listing
+	dirCase := func(router bool, stale, names []string) {
+		d := filepath.Join(tmp, fmt.Sprintf("dc%d", run.Sum.Distribution["model:dir-case"]+run.Sum.Distribution["model:dir-unwritable"]))
+		os.RemoveAll(d)
+		os.MkdirAll(d, 0755)
+		for _, s := range stale {
+			ioutil.WriteFile(filepath.Join(d, s), []byte("{}"), 0644)
+		}
+		var err error
+		if router {
+			rc := v2.RouterConfiguration{}
+			rc.RouterConfigName, rc.RouterConfigPath = "r", d
+			for _, n := range names {
+				rc.VirtualHosts = append(rc.VirtualHosts, v2.VirtualHost{Name: n})
+			}
+			_, err = json.Marshal(rc)
+		} else {
+			cm := v2.ClusterManagerConfig{}
+			cm.ClusterConfigPath = d
+			for _, n := range names {
+				cm.Clusters = append(cm.Clusters, v2.Cluster{Name: n})
+			}
+			_, err = json.Marshal(cm)
+		}
+		ents, e2 := ioutil.ReadDir(d)
+		if err != nil || e2 != nil {
+			run.Sum.Distribution["model:dir-unwritable"]++
+			return
+		}
+		var lst []string
+		for _, e := range ents {
+			lst = append(lst, e.Name())
+		}
+		strs := func(l []string) string {
+			var q []string
+			for _, x := range l {
+				q = append(q, coqStr(x))
+			}
+			return "[" + strings.Join(q, "; ") + "]"
+		}
+		add(fmt.Sprintf("(DirCase %v %s %s %s)", router, strs(stale), strs(names), strs(lst)), map[string]interface{}{"kind": "dir", "router": router, "stale": stale, "names": names, "listing": lst})
+		run.Sum.Distribution["model:dir-case"]++
+	}
+	{
+		long := strings.Repeat("p", 128)
+		pool := []string{"a", "b", "a/b", "a_b", "z.json", ".hidden", "with blank", "x/y/z", long + "-A", long + "-B", strings.Repeat("q", 124), strings.Repeat("m", 200), "B", "0", "é"}
+		stalePool := []string{"old.json", "a.json", "note.txt", "a_b.json", "zz", "B.json", strings.Repeat("q", 124) + ".json"}
+		for i := 0; i < run.N(24, 300); i++ {
+			var names, stale []string
+			for k := r.Intn(5); k >= 0; k-- {
+				names = append(names, pool[r.Intn(len(pool))])
+			}
+			seen := map[string]bool{}
+			for k := r.Intn(4); k > 0; k-- {
+				s := stalePool[r.Intn(len(stalePool))]
+				if !seen[s] {
+					seen[s] = true
+					stale = append(stale, s)
+				}
+			}
+			dirCase(i%2 == 0, stale, names)
+		}
+	}
 	// (c) the duration coder law used by the hook pairs: ParseDuration(String(d)) = d
 	durs := []time.Duration{0, 1, 999, 1000, 1500, time.Millisecond, 1500 * time.Microsecond, time.Second, 1500 * time.Millisecond, time.Minute, 90 * time.Second, time.Hour, 1<<63 - 1, -1500 * time.Millisecond}
 	for i := 0; i < run.N(200, 5000); i++ {
